@@ -1141,7 +1141,11 @@ def check_preconditions(prog, zc, pre):
     for callee, plist in pre.items():
         cf = prog.fns.get(callee)
         if cf is None:
-            out.append((callee, None, None, False, "function with declared preconditions not found"))
+            # the function is gone (folded into its callers, or removed). Its preconditions were assumptions made while its
+            # own body was audited; with no body and no call left nothing rests on them. What its callers now do in its
+            # place is audited where it stands, without any assumption.
+            still_called = any(t.callee == callee for _, _, t in prog.all_calls())
+            out.append((callee, None, None, not still_called, "function with declared preconditions not found%s" % ("" if still_called else " and not called any more: nothing is assumed")))
             continue
         n = 0
         for f, b, t in prog.all_calls():
